@@ -129,28 +129,60 @@ def activation(chk, repo):
     need(len(loop_ev) == 3, f"{sym}: expected enable, compare, clear; found "
                             f"{kinds}")
     en, cmp_, clr = loop_ev
-    ok = en.kind == "store" and match(
-        "ebpf.pB[start + self.ETHERNET_HEADER]", en.target) is not None \
-        and unparse(en.value) == "cmd.value" and not en.guards
+    from ..linear import lin, same_lin, NonLinear, show
+    spc = repo.cls(C + "SterilePacket")
+    lev = Evaluator(repo, spc.module, spc)
+    pk = repo.cls("ebpfcat.ethercat.Packet")
+    try:
+        EH = lev.class_attr(pk, "ETHERNET_HEADER")
+        DT = lev.class_attr(pk, "DATAGRAM_TAIL")
+    except Unknown:
+        raise AnalysisError("Packet.ETHERNET_HEADER / DATAGRAM_TAIL not "
+                            "foldable")
+
+    def at(e, array, want):
+        """is e `ebpf.<array>[<index>]` with the index's linear form ==
+        want (offsets may be spelt with literals or the class constants)"""
+        b = match(f"ebpf.{array}[$i]", e)
+        if b is None:
+            return False, unparse(e)
+        try:
+            lf = lin(b["i"], lev, {"self": Obj(spc)})
+        except NonLinear:
+            return False, unparse(e)
+        return same_lin(lf, want), f"{array}[{show(lf)}]"
+    ok, got = at(en.target, "pB", {"start": 1, "": EH})
+    ok = ok and en.kind == "store" and unparse(en.value) == "cmd.value" \
+        and not en.guards
     chk.ob("R21.2", sym, "enable: the writer's own command at its command "
-           "byte", ok, en.node, "pB[start + ETHERNET_HEADER] = cmd.value")
+           "byte", ok, en.node, f"{got} = {unparse(en.value)}; expected "
+           f"pB[start + ETHERNET_HEADER] = cmd.value")
     ok = cmp_.kind == "iadd" and unparse(cmp_.target) == \
         "ebpf.ebpf.wkc_errors" and int_const(cmp_.value) == 1 and isinstance(
             cmp_.op, ast.Add) and len(cmp_.guards) == 1
     if ok:
         g = cmp_.guards[0][0]
-        ok = match("ebpf.pH[stop + self.ETHERNET_HEADER - 2] != "
-                   "self.counters[stop - 2]", g) is not None
+        b = match("$a != self.counters[$k]", g)
+        ok = b is not None
+        if ok:
+            ok1, _ = at(b["a"], "pH", {"stop": 1, "": EH - DT})
+            try:
+                kf = lin(b["k"], lev, {"self": Obj(spc)})
+            except NonLinear:
+                kf = None
+            ok = ok1 and kf is not None and same_lin(kf, {"stop": 1,
+                                                          "": -DT})
     chk.ob("R21.2", sym, "compare: working counter != expected -> "
            "wkc_errors += 1", ok, cmp_.node,
            f"guard `{cmp_.guard_text()}`: any deviation from the expected "
            f"count (too low *or* too high) is an error; += on a 4-byte map "
            f"variable is the atomic add")
-    ok = clr.kind == "store" and match(
-        "ebpf.pH[stop + self.ETHERNET_HEADER - 2]", clr.target) is not None \
-        and int_const(clr.value) == 0 and not clr.guards
+    ok, got = at(clr.target, "pH", {"stop": 1, "": EH - DT})
+    ok = ok and clr.kind == "store" and int_const(clr.value) == 0 \
+        and not clr.guards
     chk.ob("R21.2", sym, "clear: the working counter is zeroed", ok,
-           clr.node, "pH[stop + ETHERNET_HEADER - 2] = 0")
+           clr.node, f"{got} = {unparse(clr.value)}; expected pH[stop + "
+           f"ETHERNET_HEADER - 2] = 0")
     order = [e.node.lineno for e in (en, cmp_, clr)]
     chk.ob("R21.2", sym, "order: enable, compare, clear", order == sorted(
         order), f, "the comparison reads the counter before it is cleared")
